@@ -528,6 +528,11 @@ func genFull(r *rng, maxN int) []*Obj {
 	if r.p(25) {
 		pool = append(pool, &Obj{C: c, ID: 2, T: 0, Size: par.Size, Exp: par.Exp, ECR: -1, ECI: -1}) // unrelated
 	}
+	for _, o := range pool { // a child carrying the parent's header names the parent's ID as well
+		if o.Par != nil {
+			o.ParID = o.Par.ID
+		}
+	}
 	// random subset, the tombstone preferably kept
 	n := 2 + r.n(maxN-1)
 	for len(pool) > n {
